@@ -32,7 +32,7 @@ META = {
     ],
     'assumptions': ['A1', 'A2', 'A5', 'A7', 'operands of an expression are well-typed operators (domains/ranges as the constructors require)'],
     'not_decided': ['A ** n for n > 6 (loop in Operator.__pow__ unrolled: bounded-in n)',
-                    'Functional.__mul__/__rmul__/__add__/__sub__ overloads are decided in C09'],
+                    'values of built-in functionals (C09)'],
 }
 
 
@@ -490,6 +490,12 @@ def units(tier, seed):
         for d in DUNDERS:
             us.append(unit_overload(d, field))
         us.append(unit_pow(field))
+    # Functional arithmetic (the property holds "for functionals"): shared with C09
+    from contracts.props import C09
+    for d in ('__mul__', '__rmul__', '__add__', '__sub__'):
+        u = C09.unit_overload(d)
+        u.name = 'functional-' + u.name
+        us.append(u)
     us.append(unit_canary())
     return us
 
